@@ -1,0 +1,16 @@
+//go:build !verif
+// +build !verif
+
+package store
+
+import "os"
+
+// No-op twins of the /verif crash-point hooks (see verif_crash.go).
+
+func verifCrashPoint(tag string) {}
+
+func verifCrashPointIdx(tag string, index int) {}
+
+func verifCrashWrite(step string, path string, file *os.File, data []byte) {}
+
+func verifCrashSynced(path string) {}
